@@ -5,6 +5,7 @@ package local
 import (
 	vnd "github.com/buildbarn/bb-storage/internal/verifnd"
 	"github.com/buildbarn/bb-storage/pkg/blobstore/buffer"
+	pb "github.com/buildbarn/bb-storage/pkg/proto/blobstore/local"
 )
 
 // Verif_C04_R1_UseCount: all histories of <= k operations on the real
@@ -142,4 +143,72 @@ func Verif_C04_R1_UseCount() {
 		check()
 	}
 	vnd.Observe("r1", uint64(len(blocks)), uint64(len(pa.freeOffsets)))
+}
+
+// Verif_C04_R5_ReattachFreeList: what a restart does to the allocator: blocks listed in the
+// state file are re-attached at their recorded locations (any subset of the device's
+// regions, in any order). Afterwards the free list holds exactly the OTHER regions, each
+// once; a region cannot be re-attached twice; fresh allocations never hand out a
+// re-attached region and exhaust exactly the others; releasing everything gives all
+// regions back.
+func Verif_C04_R5_ReattachFreeList() {
+	const S, sectors, nblocks = 2, 2, 3
+	dev := &verifDevice{image: make([]byte, nblocks*sectors*S), sector: S, hi: nblocks * sectors * S}
+	pa := NewBlockDeviceBackedBlockAllocator(dev, verifPlainFactory{}, S, sectors, nblocks, "verif").(*blockDeviceBackedBlockAllocator)
+	loc := func(r int) *pb.BlockLocation {
+		return &pb.BlockLocation{OffsetBytes: int64(r * sectors * S), SizeBytes: sectors * S}
+	}
+	attached := make([]bool, nblocks)
+	var held []Block
+	orders := [][]int{{0, 1, 2}, {0, 2, 1}, {1, 0, 2}, {1, 2, 0}, {2, 0, 1}, {2, 1, 0}}
+	order := orders[vnd.Choose(6)]
+	k := vnd.Choose(nblocks + 1)
+	for _, r := range order[:k] {
+		b, found := pa.NewBlockAtLocation(loc(r), int64(vnd.Int(0, sectors*S)))
+		vnd.Assert(found, "a free region was not re-attached at its recorded location")
+		attached[r] = true
+		held = append(held, b)
+		_, again := pa.NewBlockAtLocation(loc(r), 0)
+		vnd.Assert(!again, "the same region was re-attached twice")
+	}
+	check := func(what string) {
+		for r := 0; r < nblocks; r++ {
+			count := 0
+			for _, f := range pa.freeOffsets {
+				if f == int64(r*sectors) {
+					count++
+				}
+			}
+			if attached[r] {
+				vnd.Assert(count == 0, what+": a region that is in use is on the free list")
+			} else {
+				vnd.Assert(count == 1, what+": a region that is not in use is not on the free list exactly once")
+			}
+		}
+		vnd.Assert(len(pa.freeOffsets) <= nblocks, what+": the free list holds more entries than the device has regions")
+	}
+	check("after re-attaching")
+	// fresh allocations use exactly the other regions
+	for {
+		b, l, err := pa.NewBlock()
+		if err != nil {
+			break
+		}
+		r := int(l.OffsetBytes) / (sectors * S)
+		vnd.Assert(r >= 0 && r < nblocks && !attached[r], "NewBlock handed out a region that a re-attached block holds")
+		attached[r] = true
+		held = append(held, b)
+		check("after allocating")
+	}
+	for r := range attached {
+		vnd.Assert(attached[r], "allocation failed although a region is free")
+	}
+	for _, b := range held {
+		b.Release()
+	}
+	for r := range attached {
+		attached[r] = false
+	}
+	check("after releasing everything")
+	vnd.Cover("r5-done")
 }
